@@ -47,6 +47,10 @@ inline void bev(const char* fmt, ...)
     g_ctx->ev("%s", buf);
 }
 
+// translating a function address is where a table-based backend would enter it into the guest's call table: the worlds
+// watch that no address is brought there before it was accepted
+inline thread_local uint64_t g_fn_translations = 0;
+
 struct GuestTrap
 {
   const char* why;
@@ -236,7 +240,9 @@ struct SimConfig
   bool reuse = false; // regions of destroyed sandboxes are handed to later creates (same addresses come back)
   bool deny_in_place = false; // impl_deny_access succeeds and hands back the in-sandbox pointer (as noop does)
   int subpage_slot = 0; // regions smaller than a page: which size-aligned slot of the page they occupy
-  bool total_as_mask = false; // impl_get_total_memory reports size-1 (the convention of the test suite's own backend)
+  bool lookup_null_on_missing = false; // a symbol the library does not export resolves to null (dlsym style) instead of aborting
+  bool total_as_mask = false;
+  size_t location_shift = 0; // impl_get_memory_location reports an address this many bytes BEFORE representation 0 (a control block in front of the guest's address space); the core never relies on the location // impl_get_total_memory reports size-1 (the convention of the test suite's own backend)
 };
 
 template<typename S>
@@ -446,6 +452,7 @@ protected:
         asked_for_null_fn();
         return mkrep(NULL_FN_POISON);
       }
+      sim::g_fn_translations++;
       return mkrep(reinterpret_cast<uintptr_t>(p));
     } else {
       return mkrep(reinterpret_cast<uintptr_t>(p) - reinterpret_cast<uintptr_t>(mem.base));
@@ -618,7 +625,7 @@ protected:
     return true;
   }
   inline size_t impl_get_total_memory() { return cfg.total_as_mask ? mem.size - 1 : mem.size; }
-  inline void* impl_get_memory_location() { return mem.base; }
+  inline void* impl_get_memory_location() { return mem.base ? mem.base - cfg.location_shift : nullptr; }
 
   int find_sym(const char* name)
   {
@@ -644,6 +651,8 @@ protected:
       idx = 0;
     }
     sim::bev("backend lookup(%s) inst=%d lib=%d -> %d", func_name, inst_id, lib, idx);
+    if (idx == 0 && cfg.lookup_null_on_missing)
+      return nullptr;
     detail::dynamic_check(idx != 0, "Symbol not found");
     return table[(size_t)idx].host;
   }
@@ -668,6 +677,8 @@ protected:
       ~Pop() { stack.pop_back(); }
     } pop;
     SIM_YIELD("impl_invoke");
+    if (func_ptr == nullptr)
+      throw sim::GuestTrap{ "call through a null function address" };
     return (*func_ptr)(params...);
   }
 
